@@ -685,9 +685,10 @@ class _WrapNumbers:
         Return an updated copy of `input_dict`.
         """
         if name not in self.cache:
-            # This was the first call.
+            # This was the first call. The dict we keep as history
+            # must not be the one handed back to the caller.
             self._add_dict(input_dict, name)
-            return input_dict
+            return input_dict.copy()
 
         self._remove_dead_reminders(input_dict, name)
 
